@@ -22,7 +22,7 @@ MIN_NONTRIVIAL = 6
 REQUIRED_COUNTERS = {'c03_advances_checked': 30, 'histories': 16}
 SHARD_TIMEOUT = {'quick': 900, 'thorough': 5400}
 LAYOUTS = ['d1', 'd2', 's1d1', 's1d2', 'd1M1d2', 's2d2', 'd3', 'h1d2',
-           'h1s1d2', 'd1s2d2', 'd1s2d2', 's2d2']
+           'h1s1d2', 'd1s2d2', 'd1s2d2', 's2d2', 'd4', 'd3']
 MONITORS = [monitors.c03_green_destinations]
 
 
@@ -48,7 +48,10 @@ def run_shard(spec, acc):
                gen.OPENERS['stab_between_devs'], gen.OPENERS['three_queued'],
                gen.OPENERS['three_queued'],
                gen.OPENERS['dest_moves_while_open'],
-               gen.OPENERS['stab_paths'], gen.OPENERS['stab_paths']]
+               gen.OPENERS['stab_paths'], gen.OPENERS['stab_paths'],
+               gen.OPENERS['manual_on_middle_w'],
+               gen.OPENERS['manual_on_middle_w'],
+               gen.OPENERS['batch_merge']]
     if spec['tier'] == 'quick':
         n_hist, jobs, cap = 9, 12, 600
     else:
